@@ -39,6 +39,26 @@ CLAIMED = {
          "A counting #[global_allocator] (thread-local counter) brackets each single parse and accessor call on generated inputs incl. 64 KiB inputs, > 16 segments and > 512-byte paths; the allocation delta must be 0, the parsed value must occupy exactly the input, every returned slice must lie inside it (or be a documented constant) and components must be ordered and disjoint.",
          "Trusted: the allocator shim counts every alloc/realloc on the calling thread.",
          "DESIGN.md 5 C20"),
+ "C05": ("runtime monitor: Appendix-B split before/after each setter call (target, frame, permitted disambiguations)",
+         "Each of the five setters (incl. removal) of the four owned types is executed on every (state shape x argument class) stratum and on random triples with long tails; the text is split before and after by the model: the target must read back as requested, every other component must be byte-identical, and the path may differ only by the three documented disambiguations evaluated on the new state; the library's own accessors are re-checked on the result.",
+         "Trusted: Appendix-B splitter; the shield rule as stated in the property.",
+         "DESIGN.md 5 C05"),
+ "C06": ("runtime differential monitor: resolved/resolve/into_resolved vs a literal RFC 3986 5.2 implementation",
+         "The three resolution entry points of both families are executed on a structured product of bases and references covering all five 5.2.2 branches x dot-ending/leading-empty/'..'-heavy paths and on random pairs, and compared with a literal implementation of 5.2.2-5.2.4 (+ Errata 4547) and 5.3 that is validated against the RFC's own examples at start-up; ambiguous targets are checked modulo the shield rule; entry points and families must agree; the base must be unchanged.",
+         "Trusted: the model resolver (checked against RFC 3986 5.4 at start-up). One known finding (pinned by an upstream unit test) is keyed in known_findings.json.",
+         "DESIGN.md 5 C06"),
+ "C09": ("runtime differential monitor: normalisation entry points vs left-to-right stack model, stand-alone and embedded",
+         "normalized_segments(), normalized(), PathBuf::normalize() and path_mut().normalize() (inside every compatible enclosing reference shape, RiRefBuf and RiBuf) are executed on all paths over a 7-segment alphabet up to a segment bound and on random long paths crossing the inline buffers, and compared with the stack model and its 5.2.4 rendering modulo the permitted shield; idempotence, absoluteness and the frame are checked.",
+         "Trusted: the stack model (cross-checked against the literal 5.2.4 algorithm on absolute paths at start-up).",
+         "DESIGN.md 5 C09"),
+ "C10": ("runtime monitor: operation histories through one PathMut handle vs list model, with three-way differential (one handle / fresh handle / stand-alone)",
+         "Exhaustive short and random long histories of push/pop/clear/symbolic_push/symbolic_append/normalize are applied through one handle (Deref view checked after every call), through a fresh handle per call (frame and validity after every call), on the stand-alone PathBuf and on RiBuf, in every enclosing shape; segment sequences are compared with a list model modulo the permitted '.' shield and with each other; distinct abstract states and transitions are counted.",
+         "Trusted: the list model; documented don't-care zones in DESIGN.md section 3.",
+         "DESIGN.md 5 C10"),
+ "C11": ("runtime monitor: authority-edit histories through one AuthorityMut handle vs record model and fresh-handle differential",
+         "Exhaustive short and random long histories of set_userinfo/set_host/set_port (incl. removal, longer/shorter/IP-literal/non-ASCII values) are applied through one handle with the handle's view checked after every call, through a fresh handle per call, and on RiBuf, for every authority shape and following component; the enclosing text must differ from the original only in the authority.",
+         "Trusted: the (userinfo?, host, port?) record model.",
+         "DESIGN.md 5 C11"),
 }
 
 PENDING = {}
